@@ -134,6 +134,8 @@ RoutesOf(c) == <<
           IF c.dep = "late" THEN <<"put", 3>> ELSE <<>>, c.style),       \* a Void result in every style
     Route("na", "put", 3, TRef("Choice"), TRef("Choice"), "none", <<>>, "rpc"),
     Route("na", "get_thing", 1, TVoid, TRef("Tree"), IF c.dep = "late" THEN "none" ELSE "plain", <<>>, "download"),
+    \* a route in the shared namespace (whose name is a Python reserved word in the rsv models)
+    Route(NB(c), "poll", 1, TVoid, TVoid, "none", <<>>, "rpc"),
     Route("nc", "ping", 1, TVoid, TVoid, "none", <<>>, "rpc"),
     \* a union argument that lives in another namespace than the route
     Route("nc", "paint", 1, IF c.ring THEN TVoid ELSE TRef("Color"), TVoid, "none", <<>>, "rpc"),
